@@ -13,7 +13,7 @@ def finish(W, run, trace, nodes, node):
     for nid in sorted(nodes):
         ((fp, _),) = nodes[nid].call("batch", [["fingerprint"]], False)
         fps[str(nid)] = fp
-    trace["digest_fp"] = {k: (repr(sorted(v.items())), None) for k, v in fps.items()}
+    trace["digest_fp"] = {k: (repr(sorted(v.items()) if isinstance(v, dict) else v), None) for k, v in fps.items()}
     trace["final_abstract"] = {nid: nodes[nid].call("abstract") for nid in sorted(nodes)}
 
 
